@@ -228,11 +228,11 @@ pub fn structure_walk(r: &InstructionGeneratorResult) -> Structure {
                 n_branches += 1;
                 check("JumpIfFalse", i, t, true, &mut v);
             }
-            Instruction::GoSub(t) => {
+            Instruction::GoSub(t, ..) => {
                 n_branches += 1;
                 check("GoSub", i, t, true, &mut v);
             }
-            Instruction::Return(Some(t)) => {
+            Instruction::Return(Some(t), ..) => {
                 n_branches += 1;
                 check("Return", i, t, true, &mut v);
             }
@@ -525,7 +525,7 @@ impl MonState {
         // executed branch must stay in its procedure
         if let Some(t) = match ins {
             Instruction::JumpIfFalse(AddressOrLabel::Resolved(t)) => Some(*t),
-            Instruction::GoSub(AddressOrLabel::Resolved(t)) => Some(*t),
+            Instruction::GoSub(AddressOrLabel::Resolved(t), ..) => Some(*t),
             _ => None,
         } {
             if self.proc_of.get(t) != self.proc_of.get(address) {
